@@ -383,6 +383,8 @@ class nd:
     def __truediv__(self, o): return self._ew(o, sdiv)
     def __rtruediv__(self, o): return self._ew(o, sdiv, True)
     def __neg__(self): return nd._wrap(_map(lambda x: -x, self._d), self)
+    def __mod__(self, o): return self._ew(o, lambda a, b: a % b)                 # SInt % positive int constant; else refused there
+    def __floordiv__(self, o): return self._ew(o, lambda a, b: a // b)
     def __lt__(self, o): return self._ew(o, lambda a, b: a < b)
     def __le__(self, o): return self._ew(o, lambda a, b: a <= b)
     def __gt__(self, o): return self._ew(o, lambda a, b: a > b)
@@ -429,8 +431,15 @@ class nd:
 
     def sum(self, axis=None): return self._reduce(lambda a, b: a + b, axis, 0)
     def prod(self, axis=None): return self._reduce(_smul, axis, 1)
-    def min(self, axis=None): return self._reduce(lambda a, b: s_where(b < a, b, a), axis)
-    def max(self, axis=None): return self._reduce(lambda a, b: s_where(b > a, b, a), axis)
+    def min(self, axis=None, initial=None, **kw):
+        if kw:
+            raise Unsupported("ndarray.min with out=/where=/keepdims=")
+        return self._reduce(lambda a, b: s_where(b < a, b, a), axis, initial)
+
+    def max(self, axis=None, initial=None, **kw):
+        if kw:
+            raise Unsupported("ndarray.max with out=/where=/keepdims=")
+        return self._reduce(lambda a, b: s_where(b > a, b, a), axis, initial)
     def any(self, axis=None): return self._reduce(_sor, axis, False)
     def all(self, axis=None): return self._reduce(_sand, axis, True)
 
@@ -1062,7 +1071,33 @@ def cumsum(x, axis=None):
             acc = acc + v
             out.append(acc)
         return nd._wrap(out, None)
-    raise Unsupported("numpy.cumsum along an axis of a 2-D symbolic array")
+    if len(x.shape) == 2 and axis in (0, 1, -1, -2):
+        rows = [list(r) for r in x._d]
+        if axis in (1, -1):
+            out = []
+            for r in rows:
+                acc, o = 0, []
+                for v in r:
+                    acc = acc + v
+                    o.append(acc)
+                out.append(o)
+        else:
+            out, acc = [], [0] * (len(rows[0]) if rows else 0)
+            for r in rows:
+                acc = [a + v for a, v in zip(acc, r)]
+                out.append(list(acc))
+        return nd._wrap(out, x)
+    raise Unsupported("numpy.cumsum along an axis of a symbolic array of more than two dimensions")
+
+
+def atleast_1d(x):
+    x = asarray(x)
+    return x if len(x.shape) >= 1 else nd._wrap([x._d], x)
+
+
+def atleast_2d(x):
+    x = atleast_1d(x)
+    return x if len(x.shape) >= 2 else nd._wrap([list(x._d)], x)
 
 
 def array_split(x, n, axis=0):
@@ -1124,7 +1159,7 @@ def make_numpy_namespace(real_numpy):
     import types
     from .shim import ModuleShim
     ns = ModuleShim(real_numpy, {
-        "ndarray": nd, "asarray": asarray, "array": array, "zeros": zeros, "ones": ones, "isnan": isnan, "floor": floor, "nan_to_num": nan_to_num,
+        "ndarray": nd, "asarray": asarray, "array": array, "zeros": zeros, "ones": ones, "isnan": isnan, "floor": floor, "nan_to_num": nan_to_num, "atleast_1d": atleast_1d, "atleast_2d": atleast_2d,
         "max": amax, "min": amin, "prod": prod, "sum": sum_, "matmul": matmul, "dot": matmul, "delete": delete,
         "append": append, "argwhere": argwhere, "clip": clip, "errstate": errstate, "argmax": argmax, "arange": arange,
         "swapaxes": swapaxes, "flipud": flipud,
